@@ -94,7 +94,7 @@ func (C06Mix) Init(env world.Env) mc.Model {
 
 var c06Templates = []string{
 	"Proof:P1:A", "Proof:P2:A", "Proof:P3:B", "Attest:P2", "Attest:P3", "Report:P1", "Report:P3",
-	"AddViewers", "RemoveEditors", "ResetViewers", "Bid", "AcceptBid", "Buy", "Notify", "BuyStorage", "DeleteA", "PostOnce", "NextBlock",
+	"AddViewers", "RemoveEditors", "ResetViewers", "Bid", "AcceptBid", "Buy", "Notify", "BuyStorage", "DeleteA", "PostOnce", "ProofBroken:P3:B", "NextBlock",
 }
 
 func (C06Mix) Events(env world.Env, mm mc.Model) []string {
@@ -126,7 +126,7 @@ func (C06Mix) Apply(env world.Env, mm mc.Model, ev string) mc.Step {
 		m.Blocks++
 		st.Model, st.Outcome = m, "block"
 		return st
-	case "Proof":
+	case "Proof", "ProofBroken":
 		f, owner := c06FA, u1
 		if p[2] == "B" {
 			f, owner = c06FB, u2
@@ -137,6 +137,9 @@ func (C06Mix) Apply(env world.Env, mm mc.Model, ev string) mc.Step {
 			c = pr.ChunkToProve
 		}
 		item, hl := f.proofFor(int(c))
+		if p[0] == "ProofBroken" {
+			hl = []byte("{not a hash list") // undecodable: the transaction is committed with Success=false
+		}
 		msg = storagetypes.NewMsgPostProof(prover, f.merkle, owner, m.StartA, item, hl, c)
 	case "Attest":
 		msg = storagetypes.NewMsgAttest(w.A(p[1]).Bech, w.A("P1").Bech, c06FA.merkle, u1, m.StartA)
